@@ -1,7 +1,7 @@
 #!/usr/bin/env python3
 """Runs mutrun.sh for every mutant directory given (or all under /tmp/mut-out) on the free slots a-d in parallel."""
 import os, sys, subprocess, threading, queue, glob, json
-EXTRA = {'C13':['C17'], 'C15':['C34'], 'C34':['C15'], 'C12':['C05'], 'C24':['C03'], 'C10':['C02'], 'C17':['C13'], 'C18':['C15'],
+EXTRA = {'C14':['C43'], 'C01':['C33'], 'C13':['C17'], 'C15':['C34'], 'C34':['C15'], 'C12':['C05'], 'C24':['C03'], 'C10':['C02'], 'C17':['C13'], 'C18':['C15'],
          'C07':['C18'], 'C04':['C03'], 'C27':['C25'], 'C26':['C25'], 'C29':['C20'], 'C06':['C05'], 'C08':['C42']}
 def checks_for(name):
     pid = name.split('-')[0]
